@@ -31,10 +31,8 @@ func c14SameURL(a, b *url.URL) bool {
 // url.Parse(string(b)) and rejects the empty text; so the round trip is the
 // standard library's.
 func VerifC14URLText() {
+	// (4 bytes do not finish within the thorough budget)
 	max := 3
-	if verifrt.Thorough() {
-		max = 4
-	}
 	raw := verifrt.String(verifrt.Len(max))
 	u, err := Parse(raw)
 	ref, rerr := url.Parse(raw)
